@@ -109,12 +109,86 @@ func vstubRewind() (int64, error) { vtsPos = 0; return 0, nil }
 
 // vpmtData: a PMT announcing the given PIDs as teletext elementary streams.
 func vpmtData(pids ...uint16) *astits.DemuxerData {
-	pmt := &astits.PMTData{}
+	var l [][2]int
 	for _, pid := range pids {
-		pmt.ElementaryStreams = append(pmt.ElementaryStreams, &astits.PMTElementaryStream{ElementaryPID: pid, StreamType: astits.StreamTypePrivateData,
-			ElementaryStreamDescriptors: []*astits.Descriptor{{Tag: astits.DescriptorTagTeletext}}})
+		l = append(l, [2]int{int(pid), 1})
+	}
+	return vpmtOf(l)
+}
+
+// vpmtOf: a PMT announcing elementary streams {pid, 1 if described as teletext} in that order.
+func vpmtOf(l [][2]int) *astits.DemuxerData {
+	pmt := &astits.PMTData{}
+	for _, e := range l {
+		es := &astits.PMTElementaryStream{ElementaryPID: uint16(e[0]), StreamType: astits.StreamTypePrivateData}
+		if e[1] == 1 {
+			es.ElementaryStreamDescriptors = []*astits.Descriptor{{Tag: astits.DescriptorTagTeletext}}
+		}
+		pmt.ElementaryStreams = append(pmt.ElementaryStreams, es)
 	}
 	return &astits.DemuxerData{PMT: pmt}
+}
+
+// C06 H7: which elementary stream is read: the PID option when given, else the first stream the PMT describes as
+// teletext (whatever its position among the streams); no such stream is the no-valid-PID error. The two PIDs carry
+// page 888 with different texts at symbolic presentation times.
+func VH_C06_PIDSelection() {
+	vmode("int")
+	k := choose(6)
+	p0 := nondetInt64(0, 8589934591-400000)
+	d1 := nondetInt64(1, 100000)
+	vtsData, vtsPos = nil, 0
+	optPID := 0
+	want := "hello" // text carried by PID 100; PID 200 carries "other"
+	wantErr := false
+	switch k {
+	case 0:
+		vtsData = append(vtsData, vpmtOf([][2]int{{100, 1}, {200, 0}}))
+	case 1:
+		vtsData = append(vtsData, vpmtOf([][2]int{{200, 0}, {100, 1}})) // the teletext stream is not the first stream
+	case 2:
+		vtsData = append(vtsData, vpmtOf([][2]int{{200, 1}, {100, 1}})) // two teletext streams: the first one
+		want = "other"
+	case 3:
+		vtsData = append(vtsData, vpmtOf([][2]int{{100, 0}, {200, 0}})) // none described as teletext
+		wantErr = true
+	case 4:
+		vtsData = append(vtsData, vpmtOf([][2]int{{200, 1}, {100, 0}})) // the option wins over the PMT
+		optPID = 100
+	default:
+		vtsData = append(vtsData, vpmtOf([][2]int{{100, 1}, {200, 1}}))
+		optPID = 200
+		want = "other"
+	}
+	for _, pid := range []uint16{200, 100} {
+		text := "hello"
+		if pid == 200 {
+			text = "other"
+		}
+		vtsData = append(vtsData, vpesData(pid, p0, vpes(vheader(0, 8, 8, true, true, 0), vrow(0, 20, text))))
+	}
+	for _, pid := range []uint16{100, 200} {
+		vtsData = append(vtsData, vpesData(pid, p0+d1, vpes(vheader(0, 8, 8, true, true, 0))))
+	}
+	vreach("pre")
+	s, err := ReadFromTeletext(bytes.NewReader(vtsBytes()), TeletextOptions{PID: optPID, Page: 888})
+	if wantErr {
+		vassert(err == ErrNoValidTeletextPID, "C06 pid: no stream described as teletext is the no-valid-PID error")
+		vreach("end")
+		return
+	}
+	vassert(err == nil, "C06 pid: readable")
+	if err != nil {
+		return
+	}
+	vassert(len(s.Items) == 1, "C06 pid: the cues of the selected stream only")
+	if len(s.Items) != 1 {
+		return
+	}
+	vassert(vtrimSpaces(vtextOf(s.Items[0])) == want, "C06 pid: the PID option, else the first stream the PMT describes as teletext")
+	ns := func(p int64) int64 { return p * 1000000000 / 90000 }
+	vassert(int64(s.Items[0].StartAt) == 0 && int64(s.Items[0].EndAt) == ns(p0+d1)-ns(p0), "C06 pid: timing from the selected stream")
+	vreach("end")
 }
 
 func vpesData(pid uint16, pts int64, payload []byte) *astits.DemuxerData {
@@ -301,31 +375,34 @@ func vtsBytes() []byte {
 	m := astits.NewMuxer(context.Background(), &buf)
 	seen := map[uint16]bool{}
 	first := true
-	// elementary streams a PMT item of the sequence announces as teletext get the teletext descriptor
-	tele := map[uint16]bool{}
-	for _, d := range vtsData {
-		if d != nil && d.PMT != nil {
-			for _, es := range d.PMT.ElementaryStreams {
-				if len(es.ElementaryStreamDescriptors) > 0 {
-					tele[es.ElementaryPID] = true
-				}
-			}
+	add := func(pid uint16, tele bool) {
+		if seen[pid] {
+			return
 		}
-	}
-	for _, d := range vtsData {
-		if d == nil || d.PES == nil || seen[d.PID] {
-			continue
-		}
-		seen[d.PID] = true
-		es := astits.PMTElementaryStream{ElementaryPID: d.PID, StreamType: astits.StreamTypePrivateData}
-		if tele[d.PID] {
+		seen[pid] = true
+		es := astits.PMTElementaryStream{ElementaryPID: pid, StreamType: astits.StreamTypePrivateData}
+		if tele {
 			es.ElementaryStreamDescriptors = []*astits.Descriptor{{Length: 5, Tag: astits.DescriptorTagTeletext, Teletext: &astits.DescriptorTeletext{Items: []*astits.DescriptorTeletextItem{
 				{Language: []byte("eng"), Magazine: 0, Page: 0x88, Type: astits.TeletextTypeTeletextSubtitlePage}}}}}
 		}
 		m.AddElementaryStream(es)
 		if first {
-			m.SetPCRPID(d.PID)
+			m.SetPCRPID(pid)
 			first = false
+		}
+	}
+	// the elementary streams a PMT item of the sequence announces, in its order, those it describes as teletext with the
+	// teletext descriptor; then every other PID that carries PES data
+	for _, d := range vtsData {
+		if d != nil && d.PMT != nil {
+			for _, es := range d.PMT.ElementaryStreams {
+				add(es.ElementaryPID, len(es.ElementaryStreamDescriptors) > 0)
+			}
+		}
+	}
+	for _, d := range vtsData {
+		if d != nil && d.PES != nil {
+			add(d.PID, false)
 		}
 	}
 	for _, d := range vtsData {
@@ -414,7 +491,17 @@ func VH_C06_Charset() {
 	code = uint8(vconcrete(int64(code)))
 	cd := newTeletextCharacterDecoder()
 	vfreeze()
+	// the decoder is reused from one page instance to the next: whatever charset an earlier instance selected, the
+	// table after selecting this one is the table a fresh decoder gets
+	if prev := choose(9); prev < 8 {
+		cd.updateCharset(astikit.UInt8Ptr(uint8(prev)), false)
+	}
 	cd.updateCharset(astikit.UInt8Ptr(code), false)
+	fresh := newTeletextCharacterDecoder()
+	fresh.updateCharset(astikit.UInt8Ptr(code), false)
+	for i := 0; i < 96; i++ {
+		vassert(string(cd.c[i]) == string(fresh.c[i]), "C06 charset: the national character set of a page does not depend on the pages decoded before")
+	}
 	nat := map[int]bool{}
 	for _, p := range teletextNationalSubsetCharactersPositionInG0 {
 		nat[int(p)] = true
